@@ -10,6 +10,10 @@ F-DELIM  the text formats join fields with the delimiter they were given and spl
 F-2D     a matrix read from a text file is forced two-dimensional (ndmin=2 / atleast_2d / reshape) before it is handed to
          from_incidence_matrix, which destructures its shape.
 F-ATOMIC in write_hif / write_json the serialisation happens before the target file is opened for writing.
+F-CAST   in the text parsers the node handed to the network comes from the node column through `nodetype` (raw only when
+         nodetype is None) and the edge ID from the edge column through `edgetype` - followed through local helpers.
+F-MEMO   a conversion memo that outlives one call is keyed by everything the stored value depends on (a cache keyed by the
+         label alone but filled with `totype(label)` returns the node cast for an edge ID).
 Round-trip equality of values is NOT decided.
 """
 from __future__ import annotations
@@ -28,7 +32,7 @@ RW_MODULES = ["xgi.readwrite.hif", "xgi.readwrite.json", "xgi.readwrite.edgelist
 def run(ctx):
     repo = ctx.repo
     res = Result(PROP)
-    res.rules = ["F-DELEG", "F-FWD", "F-DELIM", "F-2D", "F-ATOMIC", "T-KEYS", "T-DEF", "T-ATTRS", "T-CAST"]
+    res.rules = ["F-DELEG", "F-FWD", "F-DELIM", "F-2D", "F-ATOMIC", "F-CAST", "F-MEMO", "T-KEYS", "T-DEF", "T-ATTRS", "T-CAST"]
     res.explanation = (
         "Narrow claim: the writer and the reader of each file format live in different functions; the rules check that both "
         "sides go through the paired dict converters unchanged, forward every parameter, use the delimiter they were given, "
@@ -47,6 +51,8 @@ def run(ctx):
     check_delim(repo, res, fns)
     check_2d(repo, res, fns)
     check_atomic(repo, res, fns)
+    check_cast(repo, res, fns)
+    check_memo(repo, res, PROP, RW_MODULES)
     # the paired dict converters (shared with C10): a file round trip cannot succeed if they disagree
     from . import c10_convert
 
@@ -233,3 +239,89 @@ def check_atomic(repo, res, fns):
             res.inst("F-ATOMIC", f"{name}:{o.lineno} serialisation dominates open(..., 'w')", ok)
             if not ok:
                 res.add(mk_finding(PROP, "F-ATOMIC", f, o, f"{name} opens the target for writing before the network has been serialised; a network that cannot be serialised truncates an existing file", role="open"))
+
+
+def _guard_says_none(guards, typ):
+    for t, b in guards:
+        txt = " ".join(ast.unparse(t).split())
+        if (txt == f"{typ} is None" and b) or (txt == f"{typ} is not None" and not b) or (txt == f"{typ} is None" and b):
+            return True
+    return False
+
+
+def check_cast(repo, res, fns):
+    from ..provenance import Resolver
+
+    fn = fns.get("parse_bipartite_edgelist")
+    if fn is None:
+        raise AnalysisError("parse_bipartite_edgelist not found (anchor vanished)")
+    modfns = {f.name: f.node for f in fn.module.functions.values()}
+    rs = Resolver(fn.node, modfns)
+    calls = [c for c in ast.walk(fn.node) if isinstance(c, ast.Call) and isinstance(c.func, ast.Attribute) and c.func.attr == "add_node_to_edge" and len(c.args) >= 2]
+    if not calls:
+        raise AnalysisError("parse_bipartite_edgelist: no add_node_to_edge(edge, node) call (extractor does not recognise the code)")
+    for call in calls:
+        for role, arg, typ, col in (("edge", call.args[0], "edgetype", "edge_index"), ("node", call.args[1], "nodetype", "node_index")):
+            alts = rs.resolve(fn.node, arg)
+            casts = 0
+            for a in alts:
+                e = a.expr
+                if isinstance(e, ast.Call) and isinstance(e.func, ast.Name) and len(e.args) == 1 and isinstance(e.args[0], ast.Subscript):
+                    colname = ast.unparse(e.args[0].slice)
+                    ok = e.func.id == typ and colname == col
+                    casts += ok
+                    res.inst("F-CAST", f"parse_bipartite_edgelist:{call.lineno} {role} <- {a.text()}", ok)
+                    if not ok:
+                        res.add(mk_finding(PROP, "F-CAST", fn, call, f"parse_bipartite_edgelist: the {role} handed to add_node_to_edge can be `{a.text()}`; it must be `{typ}(s[{col}])` - with different node and edge types the IDs read back differ from those written", role=f"{role}:{a.text()}"))
+                elif isinstance(e, ast.Subscript):
+                    colname = ast.unparse(e.slice)
+                    ok = colname == col and _guard_says_none(a.guards, typ)
+                    res.inst("F-CAST", f"parse_bipartite_edgelist:{call.lineno} {role} <- raw {a.text()} when {typ} is None", ok)
+                    if not ok:
+                        why = f"column `{colname}` instead of `{col}`" if colname != col else f"without `{typ}` being None on that path"
+                        res.add(mk_finding(PROP, "F-CAST", fn, call, f"parse_bipartite_edgelist: the {role} handed to add_node_to_edge can be the raw field `{a.text()}` ({why}); the documented cast is skipped", role=f"{role}:raw:{a.text()}"))
+                else:
+                    raise AnalysisError(f"parse_bipartite_edgelist: cannot resolve where the {role} `{a.text()}` comes from (extractor does not recognise the code)")
+            if not casts:
+                res.add(mk_finding(PROP, "F-CAST", fn, call, f"parse_bipartite_edgelist: no path casts the {role} with `{typ}`", role=f"{role}:none"))
+    # parse_edgelist: members are cast element-wise with nodetype
+    fe = fns.get("parse_edgelist")
+    if fe is None:
+        raise AnalysisError("parse_edgelist not found (anchor vanished)")
+    rs = Resolver(fe.node, {f.name: f.node for f in fe.module.functions.values()})
+    calls = [c for c in ast.walk(fe.node) if isinstance(c, ast.Call) and isinstance(c.func, ast.Attribute) and c.func.attr in ("add_edge", "add_edges_from") and c.args]
+    if not calls:
+        raise AnalysisError("parse_edgelist: no add_edge call (extractor does not recognise the code)")
+    for call in calls:
+        alts = rs.resolve(fe.node, call.args[0])
+        ok = False
+        for a in alts:
+            for n in ast.walk(a.expr):
+                if isinstance(n, (ast.ListComp, ast.SetComp, ast.GeneratorExp)) and isinstance(n.elt, ast.Call) and isinstance(n.elt.func, ast.Name) and n.elt.func.id == "nodetype":
+                    ok = True
+                if isinstance(n, ast.Call) and isinstance(n.func, ast.Name) and n.func.id == "map" and n.args and isinstance(n.args[0], ast.Name) and n.args[0].id == "nodetype":
+                    ok = True
+        res.inst("F-CAST", f"parse_edgelist:{call.lineno} members are cast element-wise with nodetype", ok)
+        if not ok:
+            res.add(mk_finding(PROP, "F-CAST", fe, call, "parse_edgelist: the members handed to the network are never cast element-wise with `nodetype`", role="members"))
+
+
+def check_memo(repo, res, prop, module_names):
+    from ..provenance import FUNC, memo_tables
+
+    n = 0
+    for mn in module_names:
+        mi = repo.modules.get(mn)
+        if mi is None:
+            continue
+        for f in mi.functions.values():
+            for node in ast.walk(f.node):
+                if not isinstance(node, FUNC):
+                    continue
+                n += 1
+                for tab, st, missing in memo_tables(node):
+                    ok = not missing
+                    res.inst("F-MEMO", f"{f.qualname}:{st.lineno} memo `{tab}` keyed by everything its value depends on", ok)
+                    if not ok:
+                        res.add(mk_finding(prop, "F-MEMO", f, st, f"{f.qualname}: the memo table `{tab}` outlives a call of `{node.name}` and stores `{unparse(st.value, 40)}` under the key `{unparse(st.targets[0].slice, 30)}`, which omits {missing}; a later call with a different {'/'.join(missing)} gets the value converted for another one", role=tab))
+    res.inst("F-MEMO", f"{n} functions (nested included) scanned for memo tables", True)
